@@ -73,6 +73,10 @@ def run(ctx):
     ctx.rule("C14-R8", "driver-level datagram decode / encode: payload offset = bytes the header parser consumed; header = varint(quarter id)")
     shared.driver_datagram_tables(ctx, "C14-R8")
 
+    ctx.rule("C14-R9", "cursor accessors and the slice reader: capacity = room left, reads advance by the encoded length")
+    shared.buffer_accessors(ctx, "C14-R9")
+    shared.slice_reader_advance(ctx, "C14-R9")
+
     ctx.rule("C14-R4", "too-small destination untouched: the first put_* is dominated by capacity >= write_size()")
     for ty, mod in (("Frame", "frame"), ("StreamHeader", "stream_header")):
         f = A.fn("wtransport_proto::%s::%s::write_to_buffer" % (mod, ty))
